@@ -111,7 +111,8 @@ func genCombos(r *rand.Rand, ri regimeInfo, includes string) []Combo {
 				c.Percent = genPct(r)
 			}
 		case x < 18: // exempt: no key, no percentage
-		default: // other country with explicit percentage
+		default: // other country with explicit percentage (VAT exists everywhere)
+			c.Cat = "VAT"
 			c.Country = pick(r, []string{"PT", "FR", "DE", "NL"})
 			if c.Country == ri.country {
 				c.Country = ""
@@ -233,6 +234,8 @@ func Gen(r *rand.Rand, o GenOpts) *Doc {
 	}
 	if r.Intn(10) < 3 {
 		d.Includes = ri.ordinary[0]
+	} else if len(ri.retained) > 0 && r.Intn(150) == 0 {
+		d.Includes = ri.retained[0] // refused: a retained category cannot be included
 	}
 	maxLines := o.MaxLines
 	if maxLines == 0 {
